@@ -58,13 +58,23 @@ func scribble(v interface{}, depth int) {
 			scribble(x, depth+1)
 			t[k] = "SCRIBBLED"
 		}
-		t["__added__"] = []interface{}{1.0}
+		t["__added__!"] = []interface{}{1.0} // even length: survives the deletions below, also in an empty map
 		for k := range t {
 			if len(k)%2 == 1 {
 				delete(t, k)
 			}
 		}
 	}
+}
+
+func okKind(fn int, k refmodel.Kind) bool {
+	switch fn {
+	case 1:
+		return k == refmodel.KObject
+	case 2:
+		return k == refmodel.KArray
+	}
+	return true
 }
 
 type kept struct {
@@ -166,6 +176,21 @@ func RunC15(c *Ctx) {
 				c.Rec.AddViolation(h.Violation{Property: c.Prop, Oracle: "reused ValueReader result differs from a brand-new reader's", Entry: "ValueReader." + vrFnNames[fn], Family: "W9", Desc: cs.Desc,
 					InputB64: b64(doc), InputQ: h.Quote(doc), Script: script, Expected: fmt.Sprintf("(fresh) p=%d err=%s val=%s", p2, errStr(e2), show(v2)), Observed: fmt.Sprintf("(reused) p=%d err=%s val=%s", p1, errStr(e1), show(v1)),
 					Seed: c.Seed, Tier: c.Tier, Key: fmt.Sprintf("C15|differs|history=%d|call=%d", index, i)})
+			}
+			// ... and, for documents of moderate size, the reference model's tree: a brand-new reader is
+			// no independent witness for state that lives outside the readers (seeded change C03r5-m2:
+			// one shared map behind every empty object, polluted once a caller adds a key to a result)
+			if len(doc) <= 8192 {
+				if node, mok := refmodel.ParseValue(doc); mok && e1 == nil {
+					if want, wok := refmodel.Tree(node, doc); wok && okKind(fn, node.Kind) {
+						c.Rec.C("results_also_compared_with_the_model_tree")
+						if !refmodel.EqTree(v1, want) {
+							c.Rec.AddViolation(h.Violation{Property: c.Prop, Oracle: "reused ValueReader result differs from the document's value tree (and so does a brand-new reader's: state outside the readers)", Entry: "ValueReader." + vrFnNames[fn], Family: "W9", Desc: cs.Desc,
+								InputB64: b64(doc), InputQ: h.Quote(doc), Script: script, Expected: show(want), Observed: show(v1),
+								Seed: c.Seed, Tier: c.Tier, Key: fmt.Sprintf("C15|model|history=%d|call=%d", index, i)})
+						}
+					}
+				}
 			}
 			// every value returned earlier must still equal the snapshot taken when it was returned
 			for ki := range keep {
